@@ -54,6 +54,8 @@ func nodeTerm(t etree.Token) string {
 type oracles struct {
 	dsigT    []string // "(key, result)"
 	decryptT []string
+	bytes    *respBytesTabs // respbytes.go: when set, the plaintext of every decryption is recorded as BYTES (plainT) as well
+	plainT   []string
 }
 
 func (o *oracles) dsigTerm() string    { return L(o.dsigT) }
@@ -128,7 +130,7 @@ func (o *oracles) decryptOn(sp *saml2.SAMLServiceProvider, base *etree.Element) 
 						err = fmt.Errorf("panic: %v", r)
 					}
 				}()
-				plain, err = decryptChain(sp, det)
+				plain, err = o.runChain(sp, det)
 			}()
 			if err != nil || plain == nil {
 				o.decryptT = append(o.decryptT, "("+nodeTerm(det)+", Err (EOther \"decrypt\"))")
@@ -155,7 +157,10 @@ func (o *oracles) decryptOn(sp *saml2.SAMLServiceProvider, base *etree.Element) 
 
 // buildOracles computes every oracle answer the model may ask for on this root.
 func buildOracles(sp *saml2.SAMLServiceProvider, root *etree.Element) *oracles {
-	o := &oracles{}
+	return buildOraclesInto(&oracles{}, sp, root)
+}
+
+func buildOraclesInto(o *oracles, sp *saml2.SAMLServiceProvider, root *etree.Element) *oracles {
 	if sp.SkipSignatureValidation {
 		return o
 	}
@@ -950,6 +955,7 @@ func runResponseStream(c *Ctx, n int, focus string) {
 		"(config * instant * node * list (node * dsig_result) * list (node * res node))",
 		"fun i => match i with (cfg, now, root, dt, et) => VL [res_val response_val (validate_response_tree (dsig_table dt) (decrypt_table et) cfg now root); res_val assertion_info_val (retrieve_assertion_info_tree (dsig_table dt) (decrypt_table et) cfg now root)] end")
 	cs.PerShard = 25
+	newRespBytesSet(c, cs)
 	var prevSP *saml2.SAMLServiceProvider
 	var conc []concRec
 	defer func() { concurrentReplay(c, conc) }()
@@ -1722,6 +1728,7 @@ func runOneResponse(c *Ctx, cs *CaseSet, rc *respCase, respSigOK bool, profileFa
 	}
 	// ---- model input ----
 	_, root, perr := saml2.VerifParseResponse(mustDecodeWire(rc.wire), sp.MaximumDecompressedBodySize)
+	addRespBytesCase(c, cs, rc, obsResp, obsInfo, perr != nil || root == nil)
 	if perr != nil || root == nil {
 		c.Count("resp:parse-failed")
 		if err == nil {
